@@ -167,6 +167,22 @@ let dispatch (fn : Stdlib.String.t) (args : v list) : v =
         | L [c; t; h] -> EPlain (to_z c, to_str t, to_str h)
         | _ -> bad "hentry") in
       of_str (links_html (to_str title) (to_str ins) (to_str del) (to_list to_hentry entries))
+  | "render_view", [k; o; n; ops; ic; dc; body] ->
+      let to_z (x : v) : z = (match x with I 0 -> Z0 | I k when k > 0 -> Zpos (pos_of_int k) | I k -> Zneg (pos_of_int (- k)) | _ -> bad "z") in
+      let to_attrs = to_list (to_pair to_str to_str) in
+      let rec to_snode (x : v) : snode = (match x with
+        | L [I 0; s] -> SText (to_str s)
+        | L [I 1; name; attrs; I vd; L children] -> SEl (to_str name, to_attrs attrs, (vd = 1), List.map to_snode children)
+        | _ -> bad "snode") in
+      let to_sdoc (x : v) : sdoc = (match x with
+        | L [dt; ha; hda; L hd; ba; L bd] ->
+            { d_doctype = to_opt to_str dt; d_html_attrs = to_attrs ha; d_head_attrs = to_attrs hda; d_head = List.map to_snode hd;
+              d_body_attrs = to_attrs ba; d_body = List.map to_snode bd }
+        | _ -> bad "sdoc") in
+      let kind = (match k with I 0 -> KCombined | I 1 -> KInsertions | I 2 -> KDeletions | _ -> bad "kind") in
+      of_str (render_view kind (to_sdoc o) (to_sdoc n) (to_list (to_pair to_z to_str) ops) (to_str ic) (to_str dc)
+                (match body with L l -> List.map to_snode l | _ -> bad "body"))
+  | "selected_views", [inc] -> of_list (fun k -> of_str (kind_name k)) (selected (to_str inc))
   | "html_lex", [s] ->
       let of_attrs = of_list (of_pair of_str of_str) in
       let of_tok (t : tok) : v = (match t with
